@@ -2,3 +2,30 @@
 #[allow(unused_imports)]
 use super::*;
 include!("/verif/replay/in_crate/common.rs");
+
+/// C05: past start-up, a block is acceptable iff the six-block window ending at it holds at least two golden tickets
+#[test]
+fn golden_ticket_window_contract() {
+    let mut rng = Rng::from_env();
+    for _ in 0..20000 {
+        let n = rng.below(9) as usize; // ancestors available
+        let mut blocks: Vec<Block> = vec![];
+        for i in 0..n {
+            let mut b = Block::new();
+            b.id = (n - i) as u64;
+            b.hash = [(i + 1) as u8; 32];
+            b.previous_block_hash = [(i + 2) as u8; 32];
+            b.has_golden_ticket = rng.below(2) == 0;
+            blocks.push(b);
+        }
+        let cur_gt = rng.below(2) == 0;
+        let bypass = rng.below(8) == 0;
+        let got = is_golden_ticket_count_valid_([1u8; 32], cur_gt, bypass, |h| blocks.iter().find(|b| b.hash == h));
+        let depth = n.min(5);
+        let gts = blocks.iter().take(5).filter(|b| b.has_golden_ticket).count() + if cur_gt { 1 } else { 0 };
+        let desc = format!("ancestors={} tickets(prev5)={:?} current_has_gt={} bypass={}", n, blocks.iter().take(5).map(|b| b.has_golden_ticket).collect::<Vec<_>>(), cur_gt, bypass);
+        if depth == 5 && !bypass && got != (gts >= 2) { witness(format!("is_golden_ticket_count_valid_ returned {} with {} tickets in the six-block window: {}", got, gts, desc)); }
+        if depth == 4 && !bypass && got != (gts >= 1) { witness(format!("start-up (4 ancestors): returned {} with {} tickets: {}", got, gts, desc)); }
+        if (depth < 4 || bypass) && !got { witness(format!("start-up/bypass must accept: {}", desc)); }
+    }
+}
